@@ -57,7 +57,7 @@ def run_unit(unit, rec, b, clause_total, on_run, on_case, stream_depths=(10,)):
             for depth in blk["depths"]:
                 for mode in blk["modes"]:
                     for grouped in blk["grouped"]:
-                        if grouped and len(hits) < 2:
+                        if grouped in (True, "shared", "bound") and len(hits) < 2:
                             continue
                         run_config(rec, clause_total, T, hits, depth, mode, grouped, on_run)
         rec.sample({"unit": list(unit), "text": T, "last_configuration": [list(h) for h in hits],
